@@ -1,10 +1,11 @@
-\* exhaustive, typed mode: assembly 1, blocks 2-3, components 4-5, pool 6-8
-CONSTANTS N = 8  NOrig = 5  NLoc = 2  MaxLevel = 4  Typed = TRUE  MaxSet = 2  NBlk = 2  BlkGrid = TRUE
+\* exhaustive, typed mode with pin lattices: assembly 1, block 2, component group 3, components 4-5, pool 6-8, depth 4
+CONSTANTS N = 8  NOrig = 5  NLoc = 2  MaxLevel = 4  Typed = TRUE  MaxSet = 2  NBlk = 1  BlkGrid = TRUE  NGrp = 1  Rx = FALSE  NAsm = 0  Deviant = FALSE  WithOwned = TRUE
 INIT Init
 NEXT Next
 CONSTRAINT Bound
 VIEW View
 INVARIANT TypeOK
+INVARIANT BrokenIsDead
 INVARIANT OneParentListedOnce
 INVARIANT NoDuplicates
 INVARIANT Acyclic
